@@ -205,7 +205,10 @@ func withinQuantisation(want, got []world.Op, hi []bool) string {
 		return fmt.Sprintf("%d calls made since Reset, %d decoded", len(want)-1, len(got)-1)
 	}
 	rel := func(a, b float64) bool {
-		return a == b || math.Abs(a-b) <= math.Max(math.Abs(a), math.Abs(b))/(1<<20) || (math.IsNaN(a) && math.IsNaN(b))
+		// relative 2^-20, with an absolute floor below the smallest normal
+		// float32: the 4-byte form also drops two mantissa bits of a denormal
+		// (0x80000001 decodes as -0), which is quantisation too
+		return a == b || math.Abs(a-b) <= math.Max(math.Abs(a), math.Abs(b))/(1<<20)+1e-37 || (math.IsNaN(a) && math.IsNaN(b))
 	}
 	for i := range want {
 		w, g := want[i], got[i]
